@@ -36,11 +36,18 @@ rand    `-` or `<seed>:<d,d,…>` raw Int63 draws of math/rand after Seed(seed)
         what the cookie policy takes from the request: cookies = `-` or `name:value;…` (hex, header order); a value
         `t<j>` stands for the HMAC token of probe upstream j (0-7). answer `<j>` | `fb`
 
+  cf <tokens> <durations>
+        `lb_policy` in a Caddyfile: the tokens of the segment that starts at the policy name, `texthex.line` joined by
+        `,` (braces are tokens); durations = `-` or `tokenhex:nanoseconds,…`: what caddy.ParseDuration returns for the
+        tokens it accepts. answer `ok <node>>…` (the module and its chain of configured fallbacks: `s<k>`, `wrr[w,…]`,
+        `rc[k]`, `qry[hex]`, `hdr[hex]`, `ck[name,secret,max_age ns]`) | `err`
+
 answer  `<r>,<r>,… c=<counter|-> a=<availability bits|->`, r = `nil` | `<i>` | `<i>+ck<id>` | `panic:idx` | `panic:nil`;
         `err:provision` if the policy is rejected; `starved` if the draws run out; `bad-op` if malformed.
 -/
 import CaddyModel.C08.Model
 import CaddyModel.C08.Keys
+import CaddyModel.C08.Caddyfile
 import CaddyModel.C08.Witness
 
 namespace CaddyModel.C08
@@ -289,7 +296,46 @@ def tokenIdx (v : Bytes) : Option Nat :=
   | 116 :: [d] => if 48 ≤ d ∧ d ≤ 55 then some (d.toNat - 48) else none
   | _ => none
 
+/-- optional `-`, then strict decimal ≤ max -/
+def sint (max : Nat) (s : String) : Option Int :=
+  match s.toList with
+  | '-' :: ds => (num max (String.ofList ds)).map (fun n => -(n : Int))
+  | _ => (num max s).map (fun n => (n : Int))
+
+def parseTok (s : String) : Option Tok :=
+  match s.splitOn "." with
+  | [t, l] => do pure ⟨← Hex.decode t, ← num 1000 l⟩
+  | _ => none
+
+def parseDurTable (s : String) : Option (List (Bytes × Int)) :=
+  if s == "-" then some [] else
+  (s.splitOn ",").mapM fun kv =>
+    match kv.splitOn ":" with
+    | [k, v] => do pure ((← Hex.decode k), (← sint max63 v))
+    | _ => none
+
+def durOf (tbl : List (Bytes × Int)) (t : Bytes) : Option Int := (tbl.find? (·.1 == t)).map (·.2)
+
+def showInts (l : List Int) : String := ",".intercalate (l.map toString)
+
+def showPNode : PNode → String
+  | .simple k => "s" ++ toString k
+  | .wrr ws => "wrr[" ++ showInts ws ++ "]"
+  | .rc k => "rc[" ++ toString k ++ "]"
+  | .query k => "qry[" ++ Hex.encode k ++ "]"
+  | .header f => "hdr[" ++ Hex.encode f ++ "]"
+  | .cookie n sec a => "ck[" ++ Hex.encode n ++ "," ++ Hex.encode sec ++ "," ++ toString a ++ "]"
+
+def showCfRes : CfRes → String
+  | .ok p => "ok " ++ ">".intercalate (p.map showPNode)
+  | .err => "err"
+  | .fuel => "model-out-of-fuel"
+
 def handle : List String → String
+  | ["cf", toks, durs] =>
+    match (toks.splitOn ",").mapM parseTok, parseDurTable durs with
+    | some toks, some tbl => if toks.length ≤ 48 then showCfRes (parseLbPolicy (durOf tbl) toks) else "bad-op"
+    | _, _ => "bad-op"
   | ["key", src, remote, cip, uri, host, hdrs, qry, lkey, tbl] =>
     match parseKeySrc src, Hex.decode remote, Hex.decode cip, Hex.decode uri, Hex.decode host, parsePairs hdrs,
           parsePairs qry, parseNums max64 tbl with
